@@ -9,9 +9,13 @@
     res))
 
 (define (bag-unfold comparator stop? mapper successor seed)
-  (let ((mapper (lambda (acc) (let ((elt (mapper acc))) (values elt 1)))))
-    (make-bag (hash-table-unfold stop? mapper successor seed comparator)
-              comparator)))
+  (let ((res (bag comparator)))
+    (let lp ((acc seed))
+      (if (stop? acc)
+          res
+          (begin
+            (bag-adjoin! res (mapper acc))
+            (lp (successor acc)))))))
 
 (define (bag-contains? bag element)
   (hash-table-contains? (bag-table bag) element))
